@@ -282,6 +282,50 @@ macro_rules! instantiate_derived {
         }
     };
 }""")
+    # ---- C11 "truthfulness of recorded layout facts": the schema derive(Savefile) reports for T carries
+    # size_of / align_of / offset_of of the real type (or None), never something else.
+    facts = {"q": [], "t": []}
+    def uses_rec(t):
+        """schema goes through WithSchemaContext::possible_recursion (HashMap<TypeId>): out of reach (R17)"""
+        if t.startswith("[") or t.startswith("Vec<") or t.startswith("Box<"): return True
+        base = t.split("<")[0]
+        if base in allD:
+            d = allD[base]
+            fs = d.fields if isinstance(d, Struct) else [x for v in d.variants for x in v[2]]
+            return any(uses_rec(x) for x in fs)
+        return False
+    for s_ in D:
+        if s_.has_seq(allD) or any(uses_rec(f) for f in s_.fields): continue
+        inst = "%s<%s>" % (s_.name, s_.generic) if s_.generic else s_.name
+        body = ["let s = get_schema::<%s>(0);" % inst, "match &s {", "    Schema::Struct(st) => {",
+                "        let (sz, al) = struct_layout(st);",
+                '        assert!(sz.is_none() || sz == Some(std::mem::size_of::<%s>()), "C11: schema records a size that is not size_of::<T>()");' % inst,
+                '        assert!(al.is_none() || al == Some(std::mem::align_of::<%s>()), "C11: schema records an alignment that is not align_of::<T>()");' % inst,
+                '        assert!(st.fields.len() == %d, "C11: schema field count differs from the definition");' % len(s_.fields)]
+        for i, f in enumerate(s_.fields):
+            acc = ("%d" % i) if s_.kind == "tuple" else ("f%d" % i)
+            body.append('        { let o = field_offset(&st.fields[%d]); assert!(o.is_none() || o == Some(std::mem::offset_of!(%s, %s)), "C11: schema records a field offset that is not offset_of!(T, field)"); }' % (i, inst, acc))
+        body += ["    }", '    _ => panic!("C11: schema of a derived struct is not Schema::Struct"),', "}", "std::mem::forget(s);", 'kani::cover!(true, "reached end");']
+        facts[s_.tier].append("kproof!(f_%s, 6, {\n        %s\n    });" % (s_.name, "\n        ".join(body)))
+    for e in E:
+        if e.has_seq(allD) or e.many or uses_rec(e.name): continue
+        explicit = bool(e.repr)
+        body = ["let s = get_schema::<%s>(0);" % e.name, "match &s {", "    Schema::Enum(en) => {",
+                "        let (rp, sz, al) = enum_layout(en);",
+                '        assert!(sz.is_none() || sz == Some(std::mem::size_of::<%s>()), "C11: enum schema records a size that is not size_of::<T>()");' % e.name,
+                '        assert!(al.is_none() || al == Some(std::mem::align_of::<%s>()), "C11: enum schema records an alignment that is not align_of::<T>()");' % e.name,
+                '        assert!(en.discriminant_size == %d, "C11: enum schema records a wrong discriminant width");' % e.dsize(),
+                '        assert!(en.variants.len() == %d, "C11: enum schema variant count differs from the definition");' % len(e.variants)]
+        if not explicit:
+            body.append('        assert!(!rp, "C11: enum without an explicit repr is recorded as having a predictable memory layout");')
+        body += ["    }", '    _ => panic!("C11: schema of a derived enum is not Schema::Enum"),', "}", "std::mem::forget(s);", 'kani::cover!(true, "reached end");']
+        facts[e.tier].append("kproof!(f_%s, 6, {\n        %s\n    });" % (e.name, "\n        ".join(body)))
+    ftxt = "//! GENERATED by gen/generate.py — C11: layout facts recorded in derived schemas are the real ones.\n#![allow(unused_variables)]\nuse crate::common::*;\nuse crate::dtypes::*;\nuse savefile::prelude::*;\nuse savefile::verif_schema_access::*;\n"
+    for t_, hs in facts.items():
+        ftxt += "pub mod %s {\n    use super::*;\n    %s\n}\n" % (t_, "\n    ".join(hs))
+    fpath = os.path.join(V, "kani", "src", "c11f.rs")
+    if not os.path.exists(fpath) or open(fpath).read() != ftxt:
+        open(fpath, "w").write(ftxt)
     path = os.path.join(V, "kani", "src", "dtypes.rs")
     txt = "\n".join(out) + "\n"
     if not os.path.exists(path) or open(path).read() != txt:
